@@ -18,6 +18,8 @@ __TAPKEE_IMPLEMENTATION(ManifoldSculpting)
     void validate()
     {
         parameters[squishing_rate].checked().satisfies(InRange<ScalarType>(0.0, 1.0)).orThrow();
+        // the embedding consists of the first target_dimension (adjusted) features
+        parameters[target_dimension].checked().satisfies(InRange<IndexType>(1, current_dimension + 1)).orThrow();
     }
 
     TapkeeOutput embed()
